@@ -49,6 +49,7 @@ def units(tier, seed):
     for i in range(0, len(names), CHUNK_E):
         us.append({'kind': 'entries', 'names': names[i:i + CHUNK_E], 'tier': tier, 'seed': seed})
     us.append({'kind': 'zero', 'tier': tier, 'seed': seed})
+    us.append({'kind': 'high', 'tier': tier, 'seed': seed})
     progs = programs(tier)
     for i in range(0, len(progs), CHUNK_P):
         us.append({'kind': 'programs', 'progs': progs[i:i + CHUNK_P], 'tier': tier, 'seed': seed})
@@ -132,6 +133,26 @@ def run_zero(u, out):
             check_call('x0=0:' + nm, f, [UTPM(X.copy())], D, out, {'kind': 'zero', 'name': nm, 'D': D})
 
 
+HIGH_D = {'quick': [16, 17, 33], 'thorough': [16, 17, 24, 33, 40]}
+HIGH_ENTRIES = ['mul(U[3],U[3])', 'div(U[3],U[3])', 'mul(U[2, 3],U[3])', 'pow(U[3],3)', 'pow(U[3],2.5)', 'exp[3]', 'sin[3]', 'sqrt[3]', 'reciprocal[3]', 'square[3]',
+                'dot(U[2, 3],U[3, 2])', 'inv[2]', 'solve(U[2,2],U[2,2])', 'cholesky[2]', 'qr[2,2]', 'prod[3]', 'imul(U[3],U[])']
+
+
+def run_high(u, out):
+    """degrees well above anything the test-suite uses (kernels may switch algorithm with D)"""
+    for nm in HIGH_ENTRIES:
+        e = CAT.BY_NAME.get(nm)
+        if e is None:
+            out['counters']['high_entry_missing'] = out['counters'].get('high_entry_missing', 0) + 1
+            continue
+        for D in HIGH_D[u['tier']]:
+            args = CAT.make_args(e, D, 1, u['seed'])
+            for a in args:
+                if isinstance(a, UTPM):
+                    a.data[1:] *= 0.25          # keep high-order coefficients of products moderate
+            check_call(nm + '{D=%d}' % D, e.fn, args, D, out, {'kind': 'high', 'name': nm, 'D': D, 'seed': u['seed']})
+
+
 def check_program(prog, depth, D, seed, out, modes=('forward', 'reverse')):
     if any('D1only' in PR.TEMPLATES[i[0]].tags for i in prog) and D > 1:
         return
@@ -194,6 +215,8 @@ def run_unit(u):
         out['samples'] = [{'entry': u['names'][0], 'D': list(range(2, DMAX[u['tier']] + 1)), 'Dp': 'every D\' < D'}]
     elif u['kind'] == 'zero':
         run_zero(u, out)
+    elif u['kind'] == 'high':
+        run_high(u, out)
     else:
         for prog, depth in u['progs']:
             for D in ([4] if u['tier'] == 'quick' else [3, 5]):
@@ -206,6 +229,9 @@ def replay(case):
     out = {'evals': 0, 'keys': [], 'fails': [], 'samples': [], 'counters': {}, 'maxima': {}}
     if case['kind'] == 'entry':
         check_entry(CAT.BY_NAME[case['name']], case['D'], case.get('seed', 0), out)
+    elif case['kind'] == 'high':
+        run_high({'tier': 'thorough', 'seed': case.get('seed', 0)}, out)
+        out['fails'] = [f for f in out['fails'] if f['case']['name'] == case['name'] and f['case']['D'] == case['D']]
     elif case['kind'] == 'zero':
         run_zero({'tier': 'thorough'}, out)
         out['fails'] = [f for f in out['fails'] if f['case']['name'] == case['name'] and f['case']['D'] == case['D']]
